@@ -285,6 +285,10 @@ def handleQ (toks : List String) : Option String :=
       match Domain.ofString? src, Domain.ofString? dst, Quantity.ofString? qa, parseU ua, Quantity.ofString? qr, parseU ur with
       | some src, some dst, some qa, some ua, some qr, some ur => bstr (stepOk src dst qa ua qr ur)
       | _, _, _, _, _, _ => "bad-op"
+  | ["q.sampleok", qa, ua, qr, ur] => some <|
+      match Quantity.ofString? qa, parseU ua, Quantity.ofString? qr, parseU ur with
+      | some qa, some ua, some qr, some ur => bstr (sampleOk qa ua qr ur)
+      | _, _, _, _ => "bad-op"
   | ["q.sameunits", u, w] => some <|
       match parseU u, parseU w with
       | some u, some w => bstr (sameUnits u w)
